@@ -1,11 +1,16 @@
 // C09 (socket layer) and C13 (poll_at) — icmp::Socket never merges, splits, truncates, duplicates or
 // reorders datagrams.  Spliced into src/socket/icmp.rs (private fields of `Socket` reachable).
 //
-// Same method as socket_udp.rs: the socket's PacketBuffers (<= 3 metadata slots, <= 20 payload bytes, metadata symbolic) are brought into a pre-state by a fixed script of public-API steps with symbolic arguments
-// (every step may be a no-op), shadowed by a ghost FIFO; then ONE operation under test; then the queue is
-// drained through the public API and compared with the ghost.  A queued ICMP datagram is the whole ICMP
+// Same method as socket_udp.rs, with smaller bounds (ring wrap-around and padding records are explored by
+// socket_udp.rs and storage_packet.rs; ICMP dispatch parses every queued message, which is what costs here):
+// the socket's PacketBuffers (1..=2 metadata slots, 20 payload bytes) are brought into a pre-state by a fixed
+// script of two public-API steps with symbolic arguments (every step may be a no-op), shadowed by a ghost
+// FIFO; then ONE operation under test; then the queue is drained through the public API and compared with
+// the ghost.  The IPv4 harnesses run in the IPv4-only configuration KI4 (in KG every dispatch would also
+// encode the unreachable ICMPv6 / NDISC / MLD parsers); the IPv6 harness runs in KG.  A queued ICMP datagram is the whole ICMP
 // message: 8 header bytes (type, code, checksum, ident, seq_no) + 0..=4 data bytes pat(tag, i);
 // seq_no is derived from the tag, so the ghost stores (tag, data length, address, ident, type, code) only.
+#[cfg(all(feature = "proto-ipv4", feature = "medium-ip"))]
 #[allow(dead_code, unused_imports, unused_variables, unused_mut, unused_assignments)]
 mod v_socket_icmp {
     use super::*;
@@ -19,8 +24,8 @@ mod v_socket_icmp {
     use crate::wire::Ipv6Address;
 
     const LOCAL: Ipv4Address = Ipv4Address::new(192, 168, 1, 1);
-    const MC: usize = 3; // metadata slots: 2..=3 symbolic
-    const PC: usize = 20; // payload ring (symbolic capacities 0..=8 are explored by socket_udp.rs and storage_packet.rs)
+    const MC: usize = 2; // metadata slots: 1..=2 symbolic
+    const PC: usize = 20; // payload ring: one 12-byte message and one of 8, not two of 12 (symbolic capacities: socket_udp.rs)
     const HL: usize = 8; // echo header
     const DD: usize = 4; // echo data bytes: 0..=4
     const BL: usize = HL + DD; // largest message: 12 bytes
@@ -96,22 +101,18 @@ mod v_socket_icmp {
         fn push(&mut self, g: G) {
             if !self.q[0].valid { self.q[0] = g; }
             else if !self.q[1].valid { self.q[1] = g; }
-            else if !self.q[2].valid { self.q[2] = g; }
             else { self.overflow = true; }
         }
         fn pop(&mut self) {
             if self.q[0].valid { self.popped = true; }
             self.q[0] = self.q[1];
-            self.q[1] = self.q[2];
-            self.q[2] = GE;
+            self.q[1] = GE;
         }
         fn count(&self) -> usize {
-            self.q[0].valid as usize + self.q[1].valid as usize + self.q[2].valid as usize
+            self.q[0].valid as usize + self.q[1].valid as usize
         }
         fn bytes(&self) -> usize {
-            (if self.q[0].valid { HL + self.q[0].len } else { 0 })
-                + (if self.q[1].valid { HL + self.q[1].len } else { 0 })
-                + (if self.q[2].valid { HL + self.q[2].len } else { 0 })
+            (if self.q[0].valid { HL + self.q[0].len } else { 0 }) + (if self.q[1].valid { HL + self.q[1].len } else { 0 })
         }
     }
 
@@ -143,7 +144,7 @@ mod v_socket_icmp {
 
     fn any_slots() -> usize {
         let v = any_le(MC);
-        kani::assume(v >= 2);
+        kani::assume(v >= 1);
         v
     }
 
@@ -298,13 +299,11 @@ mod v_socket_icmp {
         a.octets() == [0, 0, 0, 0]
     }
 
-    // @harness props=C09 cfg=KG tier=q to=900 mem=8 unwind=17 opts=nomem covers=4 funcs=icmp::Socket::send_slice;icmp::Socket::send;icmp::Socket::send_with;icmp::Socket::dispatch;Icmpv4Repr::parse;PacketBuffer::enqueue;PacketBuffer::dequeue_with bounds=tx_metadata_slots_2..=3;_payload_ring_20_bytes;_pre-state_=_send,_send_with,_dispatch,_dispatch_(each_may_be_a_no-op);_ICMPv4_messages_of_8+0..=4_bytes,_any_type/code/ident,_any_IPv4_destination;_one_interface_address
+    // @harness props=C09 cfg=KI4 tier=q to=900 mem=8 unwind=13 opts=nomem covers=4 funcs=icmp::Socket::send_slice;icmp::Socket::send;icmp::Socket::send_with;icmp::Socket::dispatch;Icmpv4Repr::parse;PacketBuffer::enqueue;PacketBuffer::dequeue_with bounds=tx_metadata_slots_1..=2;_payload_ring_20_bytes;_pre-state_=_send,_dispatch_(each_may_be_a_no-op);_ICMPv4_messages_of_8+0..=4_bytes,_any_type/code/ident,_any_IPv4_destination;_one_interface_address
     #[kani::proof]
     pub(crate) fn icmp_send() {
         tx_setup!(dev, iface, cx, s, g, hop);
         step_send(&mut s, &mut g, VIA_SEND);
-        step_send(&mut s, &mut g, VIA_WITH);
-        step_dispatch(&mut s, cx, &mut g);
         step_dispatch(&mut s, cx, &mut g);
         let before = g.count();
         let m = any_msg();
@@ -324,20 +323,18 @@ mod v_socket_icmp {
                 assert!(!(before == 0 && size <= pcap), "prop:c09_icmp_empty_tx_accepts_up_to_capacity");
             }
         }
-        kani::cover!(r.is_ok() && before == 2, "third datagram accepted");
-        kani::cover!(r.is_ok() && before == 1 && g.popped && s.send_queue() > g.bytes(), "accepted behind a padding record (ring wrapped)");
-        kani::cover!(r == Err(SendError::BufferFull) && before >= 1 && before < mcap && size <= pcap, "refused: payload ring too full");
+        kani::cover!(r.is_ok() && before == 1, "second datagram accepted behind the first");
+        kani::cover!(r.is_ok() && before == 0 && g.popped, "accepted on a queue emptied by dispatch");
+        kani::cover!(r == Err(SendError::BufferFull) && before == 1 && mcap == 2, "refused: payload ring too full");
         kani::cover!(r == Err(SendError::BufferFull) && before == mcap, "refused: metadata slots full");
         drain_tx(&mut s, cx, &g, hop);
     }
 
-    // @harness props=C09 cfg=KG tier=q to=900 mem=8 unwind=17 opts=nomem covers=3 funcs=icmp::Socket::send_with;icmp::Socket::send_slice;icmp::Socket::dispatch;PacketBuffer::enqueue_with_infallible;PacketBuffer::dequeue_with bounds=tx_metadata_slots_2..=3;_payload_ring_20_bytes;_pre-state_=_send_slice,_send_with,_dispatch,_dispatch_(each_may_be_a_no-op);_max_size_0..=12,_written_message_8..=12_bytes_<=_max_size
+    // @harness props=C09 cfg=KI4 tier=q to=900 mem=8 unwind=13 opts=nomem covers=3 funcs=icmp::Socket::send_with;icmp::Socket::send_slice;icmp::Socket::dispatch;PacketBuffer::enqueue_with_infallible;PacketBuffer::dequeue_with bounds=tx_metadata_slots_1..=2;_payload_ring_20_bytes;_pre-state_=_send_slice,_dispatch_(each_may_be_a_no-op);_max_size_0..=12,_written_message_8..=12_bytes_<=_max_size
     #[kani::proof]
     pub(crate) fn icmp_send_with() {
         tx_setup!(dev, iface, cx, s, g, hop);
         step_send(&mut s, &mut g, VIA_SLICE);
-        step_send(&mut s, &mut g, VIA_WITH);
-        step_dispatch(&mut s, cx, &mut g);
         step_dispatch(&mut s, cx, &mut g);
         let before = g.count();
         let m = any_msg();
@@ -368,20 +365,18 @@ mod v_socket_icmp {
                 assert!(!(before == 0 && max <= pcap), "prop:c09_icmp_empty_tx_accepts_up_to_capacity");
             }
         }
-        kani::cover!(r.is_ok() && before == 2 && take < max, "third datagram accepted and shrunk");
+        kani::cover!(r.is_ok() && before == 1 && take < max, "second datagram accepted and shrunk");
         kani::cover!(r.is_ok() && before == 0 && g.popped, "accepted on a queue emptied by dispatch (read pointer moved)");
-        kani::cover!(r == Err(SendError::BufferFull) && before >= 1 && before < mcap && max <= pcap, "refused: payload ring too full");
+        kani::cover!(r == Err(SendError::BufferFull) && before == 1 && mcap == 2, "refused: payload ring too full");
         drain_tx(&mut s, cx, &g, hop);
     }
 
-    // @harness props=C09 cfg=KG tier=q to=900 mem=8 unwind=17 opts=nomem covers=4 funcs=icmp::Socket::dispatch;icmp::Socket::send_slice;icmp::Socket::send_with;Icmpv4Repr::parse;PacketBuffer::dequeue_with bounds=tx_metadata_slots_2..=3;_payload_ring_20_bytes;_pre-state_=_send_slice,_send_with,_dispatch,_send_slice_(each_may_be_a_no-op);_emit_returns_Ok_or_Err;_ICMPv4_messages_8..=12_bytes,_any_type/code
+    // @harness props=C09 cfg=KI4 tier=q to=900 mem=8 unwind=13 opts=nomem covers=4 funcs=icmp::Socket::dispatch;icmp::Socket::send_slice;icmp::Socket::send_with;Icmpv4Repr::parse;PacketBuffer::dequeue_with bounds=tx_metadata_slots_1..=2;_payload_ring_20_bytes;_pre-state_=_send_slice,_send_with_(each_may_be_a_no-op);_emit_returns_Ok_or_Err;_ICMPv4_messages_8..=12_bytes,_any_type/code
     #[kani::proof]
     pub(crate) fn icmp_dispatch() {
         tx_setup!(dev, iface, cx, s, g, hop);
         step_send(&mut s, &mut g, VIA_SLICE);
         step_send(&mut s, &mut g, VIA_WITH);
-        step_dispatch(&mut s, cx, &mut g);
-        step_send(&mut s, &mut g, VIA_SLICE);
         let before = g.count();
         let head = g.q[0];
         let emit_ok: bool = kani::any();
@@ -399,14 +394,14 @@ mod v_socket_icmp {
             assert!(!o.seen && r.is_ok(), "prop:c09_icmp_tx_no_extra_datagram");
             g.pop();
         }
-        kani::cover!(head.valid && head.echo() && !emit_ok && before >= 2, "emit Err path taken with two or more queued");
-        kani::cover!(head.valid && head.echo() && emit_ok && before == 3, "emit Ok pops the head, two remain");
-        kani::cover!(head.valid && head.echo() && emit_ok && s.send_queue() > g.bytes(), "head popped in front of a padding record");
+        kani::cover!(head.valid && head.echo() && !emit_ok && before == 2, "emit Err path taken with two queued");
+        kani::cover!(head.valid && head.echo() && emit_ok && before == 2, "emit Ok pops the head, one remains");
+        kani::cover!(head.valid && head.echo() && head.ty == 0 && head.len == DD, "echo reply with 4 data bytes emitted");
         kani::cover!(head.valid && !head.echo() && before == 2, "malformed head dropped, one remains");
         drain_tx(&mut s, cx, &g, hop);
     }
 
-    // @harness props=C09,C13 cfg=KG tier=q to=900 mem=8 unwind=17 opts=nomem covers=3 funcs=icmp::Socket::poll_at;icmp::Socket::send_slice;icmp::Socket::send_with;icmp::Socket::dispatch bounds=tx_metadata_slots_2..=3;_payload_ring_20_bytes;_script_send_slice,_send_with,_dispatch,_send_slice,_dispatch,_dispatch_(each_may_be_a_no-op);_poll_at_probed_after_every_step
+    // @harness props=C09,C13 cfg=KI4 tier=q to=900 mem=8 unwind=13 opts=nomem covers=3 funcs=icmp::Socket::poll_at;icmp::Socket::send_slice;icmp::Socket::send_with;icmp::Socket::dispatch bounds=tx_metadata_slots_1..=2;_payload_ring_20_bytes;_script_send_slice,_send_with,_dispatch,_send_slice,_dispatch,_dispatch_(each_may_be_a_no-op);_poll_at_probed_after_every_step
     #[kani::proof]
     pub(crate) fn icmp_poll_at() {
         tx_setup!(dev, iface, cx, s, g, hop);
@@ -547,13 +542,11 @@ mod v_socket_icmp {
         };
     }
 
-    // @harness props=C09 cfg=KG tier=q to=900 mem=8 unwind=17 opts=nomem covers=4 funcs=icmp::Socket::process_v4;icmp::Socket::accepts_v4;icmp::Socket::recv;Icmpv4Repr::emit;PacketBuffer::enqueue;PacketBuffer::dequeue bounds=rx_metadata_slots_2..=3;_payload_ring_20_bytes;_pre-state_=_process,_process,_recv,_recv_(each_may_be_a_no-op);_echo_request/reply_with_0..=4_data_bytes_from_any_IPv4_source
+    // @harness props=C09 cfg=KI4 tier=q to=900 mem=8 unwind=13 opts=nomem covers=4 funcs=icmp::Socket::process_v4;icmp::Socket::accepts_v4;icmp::Socket::recv;Icmpv4Repr::emit;PacketBuffer::enqueue;PacketBuffer::dequeue bounds=rx_metadata_slots_1..=2;_payload_ring_20_bytes;_pre-state_=_process,_recv_(each_may_be_a_no-op);_echo_request/reply_with_0..=4_data_bytes_from_any_IPv4_source
     #[kani::proof]
     pub(crate) fn icmp_process_recv() {
         rx_setup!(dev, iface, cx, s, g, ident);
         step_process(&mut s, cx, &mut g, ident);
-        step_process(&mut s, cx, &mut g, ident);
-        step_recv(&mut s, &mut g);
         step_recv(&mut s, &mut g);
         let before = g.count();
         let mut m = any_echo(ident);
@@ -571,19 +564,17 @@ mod v_socket_icmp {
         } else {
             assert!(before < mcap && size <= pcap, "prop:c09_icmp_rx_delivery_within_capacity");
         }
-        kani::cover!(delivered && before == 2, "third datagram delivered");
-        kani::cover!(delivered && before == 1 && g.popped && bytes_after > g.bytes(), "delivered behind a padding record (ring wrapped)");
-        kani::cover!(!delivered && before >= 1 && before < mcap && size <= pcap, "dropped whole: payload ring too full");
+        kani::cover!(delivered && before == 1, "second datagram delivered behind the first");
+        kani::cover!(delivered && before == 0 && g.popped, "delivered into a queue emptied by recv");
+        kani::cover!(!delivered && before == 1 && mcap == 2, "dropped whole: payload ring too full");
         kani::cover!(!delivered && before == mcap, "dropped whole: metadata slots full");
     }
 
-    // @harness props=C09 cfg=KG tier=q to=900 mem=8 unwind=17 opts=nomem covers=3 funcs=icmp::Socket::recv_slice;icmp::Socket::recv;icmp::Socket::process_v4 bounds=rx_metadata_slots_2..=3;_payload_ring_20_bytes;_pre-state_=_process,_process,_recv,_process_(each_may_be_a_no-op);_user_buffer_0..=12_bytes
+    // @harness props=C09 cfg=KI4 tier=q to=900 mem=8 unwind=13 opts=nomem covers=3 funcs=icmp::Socket::recv_slice;icmp::Socket::recv;icmp::Socket::process_v4 bounds=rx_metadata_slots_1..=2;_payload_ring_20_bytes;_pre-state_=_process,_process_(each_may_be_a_no-op);_user_buffer_0..=12_bytes
     #[kani::proof]
     pub(crate) fn icmp_recv_truncated() {
         rx_setup!(dev, iface, cx, s, g, ident);
         step_process(&mut s, cx, &mut g, ident);
-        step_process(&mut s, cx, &mut g, ident);
-        step_recv(&mut s, &mut g);
         step_process(&mut s, cx, &mut g, ident);
         let head = g.q[0];
         let ulen = any_le(BL);
@@ -616,7 +607,7 @@ mod v_socket_icmp {
         [(sp >> 8) as u8, sp as u8, (dp >> 8) as u8, dp as u8, (len >> 8) as u8, len as u8, 0, 0]
     }
 
-    // @harness props=C09 cfg=KG tier=q to=600 mem=8 unwind=17 opts=nomem covers=4 funcs=icmp::Socket::accepts_v4;icmp::Socket::bind;icmp::Socket::is_open;UdpRepr::parse bounds=bound_to_Ident(any),_Udp(any_port,_no/any_IPv4_address)_or_Tcp;_message_=_echo_request/reply_(any_ident)_or_DstUnreachable/TimeExceeded_quoting_an_8-byte_UDP_header_(any_ports,_any_length_field)
+    // @harness props=C09 cfg=KI4 tier=q to=600 mem=8 unwind=9 opts=nomem covers=4 funcs=icmp::Socket::accepts_v4;icmp::Socket::bind;icmp::Socket::is_open;UdpRepr::parse bounds=bound_to_Ident(any),_Udp(any_port,_no/any_IPv4_address)_or_Tcp;_message_=_echo_request/reply_(any_ident)_or_DstUnreachable/TimeExceeded_quoting_an_8-byte_UDP_header_(any_ports,_any_length_field)
     #[kani::proof]
     pub(crate) fn icmp_accepts_bind() {
         env!(dev, iface, cx);
@@ -702,7 +693,7 @@ mod v_socket_icmp {
     // quoted UDP length field normally exceeds the 8 quoted bytes.  A socket bound to the UDP port the
     // datagram was sent from must accept such an error ("each valid datagram arriving for a bound socket is
     // delivered").
-    // @harness props=C09 cfg=KG tier=q to=600 mem=8 unwind=17 opts=nomem covers=1 funcs=icmp::Socket::accepts_v4;UdpRepr::parse;UdpPacket::check_len bounds=socket_bound_to_Udp(any_port);_DstUnreachable_quoting_the_first_8_bytes_of_a_UDP_datagram_of_any_length_8..=65535
+    // @harness props=C09 cfg=KI4 tier=q to=600 mem=8 unwind=9 opts=nomem covers=1 funcs=icmp::Socket::accepts_v4;UdpRepr::parse;UdpPacket::check_len bounds=socket_bound_to_Udp(any_port);_DstUnreachable_quoting_the_first_8_bytes_of_a_UDP_datagram_of_any_length_8..=65535
     #[kani::proof]
     pub(crate) fn icmp_accepts_truncated_quote() {
         env!(dev, iface, cx);
@@ -724,9 +715,13 @@ mod v_socket_icmp {
 
     // ---------------------------------------------------------------- IPv6 messages (one datagram each way)
     // @harness props=C09 cfg=KG tier=q to=900 mem=8 unwind=17 opts=nomem covers=2 funcs=icmp::Socket::send_slice;icmp::Socket::dispatch;icmp::Socket::process_v6;icmp::Socket::accepts_v6;icmp::Socket::recv;Icmpv6Repr::parse;Icmpv6Repr::emit bounds=one_ICMPv6_echo_request/reply_(0..=4_data_bytes)_sent_and_one_received;_payload_rings_of_12_bytes;_IPv6_addresses_with_2_symbolic_groups;_interface_without_IPv6_address_(source_::1)
-    #[cfg(feature = "proto-ipv6")]
     #[kani::proof]
     pub(crate) fn icmp_v6_send_dispatch_process_recv() {
+        #[cfg(feature = "proto-ipv6")]
+        icmp_v6_send_dispatch_process_recv_body();
+    }
+    #[cfg(feature = "proto-ipv6")]
+    fn icmp_v6_send_dispatch_process_recv_body() {
         env!(dev, iface, cx);
         sock!(s, 1, BL, 1, BL);
         let ident = bind_ident(&mut s);
@@ -807,7 +802,7 @@ mod v_socket_icmp {
         kani::cover!(acc && rd == DD, "IPv6 echo with 4 data bytes delivered");
     }
 
-    // @harness props=C09 kind=mustfail cfg=KG tier=q to=600 mem=8 unwind=17 opts=nomem
+    // @harness props=C09 kind=mustfail cfg=KI4 tier=q to=600 mem=8 unwind=13 opts=nomem
     #[kani::proof]
     pub(crate) fn icmp_must_fail() {
         tx_setup!(dev, iface, cx, s, g, hop);
@@ -819,4 +814,15 @@ mod v_socket_icmp {
         g.pop();
         drain_tx(&mut s, cx, &g, hop);
     }
+}
+
+// Configurations without IPv4 or without medium-ip (this file is spliced into every configuration of a
+// run): the harnesses above are not run there; the replay dispatcher only needs their names.
+#[cfg(not(all(feature = "proto-ipv4", feature = "medium-ip")))]
+#[allow(dead_code)]
+mod v_socket_icmp {
+    macro_rules! stubs {
+        ($($n:ident)*) => { $(pub(crate) fn $n() {})* };
+    }
+    stubs!(icmp_send icmp_send_with icmp_dispatch icmp_poll_at icmp_process_recv icmp_recv_truncated icmp_accepts_bind icmp_accepts_truncated_quote icmp_v6_send_dispatch_process_recv icmp_must_fail);
 }
